@@ -244,6 +244,23 @@ func TestVerifC17(t *testing.T) {
 			vh17Socket(o, "socket-gated", 1, msize, s, base, orc, []int{first, len(s)}, 3*time.Millisecond)
 		}
 	}
+	// 2c. every cut position of short two-vector frames (fixed part + payload) followed by a small frame:
+	// the first segment ends at byte `cut` (inside the header, the fixed part, at the boundary, inside the
+	// short payload), the rest follows after a pause; on the recvmsg path and behind a plain io.Reader
+	for fi, f := range [][]byte{
+		vh02Encode(811, &twrite{fid: 3, Offset: 9, Data: []byte{1, 2, 3, 4, 5, 6}}),
+		vh02Encode(812, &rread{Data: []byte{9, 8, 7, 6, 5}}),
+	} {
+		s := append(append([]byte{}, f...), small[fi%len(small)]...)
+		base := vh17Base(s, msize)
+		orc := vh02Oracles(s, msize)
+		for cut := 1; cut < len(f); cut++ {
+			vh17Socket(o, "socket-everycut", 1, msize, s, base, orc, []int{cut, len(s)}, 2*time.Millisecond)
+			if cut%4 == 1 {
+				vh17Socket(o, "socket-everycut", 2, msize, s, base, orc, []int{cut, len(s)}, 2*time.Millisecond)
+			}
+		}
+	}
 	// 3. a large payload cut in many places, through the socket (kernel buffers smaller than the frame)
 	big := make([]byte, 300000)
 	r.Read(big)
